@@ -20,6 +20,8 @@ type Vec struct {
 	F     []bool  `json:"folded"`
 	S     []int   `json:"strength"`
 	Order []int   `json:"insertion_order,omitempty"`
+	// LevelRot > 0: the contributor lists of the levels handed to the settlement are turned by that many places
+	LevelRot int `json:"level_contributors_turned,omitempty"`
 }
 
 func (v Vec) order() []int {
@@ -142,8 +144,24 @@ func Run(v Vec) (pots []*pot.Pot, res *settlement.Result, perr interface{}) {
 	}
 	pots = ll.GetPots()
 	res = settlement.NewResult()
-	for _, p := range pots {
-		res.AddPot(p.Total, p.Levels)
+	for j, p := range pots {
+		levels := p.Levels
+		if v.LevelRot > 0 {
+			// the order in which a level lists its contributors carries no meaning
+			// (the level list itself fills it in map order): hand the settlement
+			// copies with the lists turned
+			levels = make([]*pot.Level, len(p.Levels))
+			for k, l := range p.Levels {
+				c := *l
+				n := len(l.Contributors)
+				c.Contributors = make([]int, n)
+				for i := range l.Contributors {
+					c.Contributors[(i+v.LevelRot+j+k)%n] = l.Contributors[i]
+				}
+				levels[k] = &c
+			}
+		}
+		res.AddPot(p.Total, levels)
 	}
 	for i := range v.C {
 		res.AddPlayer(i, v.C[i]+1000000) // the bankroll covers what was put in
@@ -197,7 +215,12 @@ func CheckPots(v Vec, pots []*pot.Pot) *vlib.Violation {
 				return vlib.V("C16", "unknown-player", "%s: pot %d lists player %d", v.Short(), j, i)
 			}
 			if v.F[i] {
-				continue // folded entries are written back on purpose (DESIGN §5.4)
+				// folded entries are written back on purpose (DESIGN §5.4); but no
+				// chip may be shown in a pot that starts above what its owner paid
+				if prev > v.C[i] {
+					return vlib.V("C16", "folded-listed-above-contribution", "%s: pot %d (levels %d..%d) lists folded player %d, who put in only %d", v.Short(), j, prev, p.Level, i, v.C[i])
+				}
+				continue
 			}
 			if !elig[i] {
 				return vlib.V("C16", "not-eligible-listed", "%s: pot %d (level %d) lists player %d who put in %d", v.Short(), j, p.Level, i, v.C[i])
